@@ -27,3 +27,6 @@ def run(rep: Report, repo: Repo, tier: str) -> None:
     from . import misc_rules
     with rep.isolated():
         misc_rules.rule_writer_first_element(rep, repo, "C20-R8")
+    # "directive options are emitted ... interleaved with title changes and clear()": clear() empties the content only
+    with rep.isolated():
+        writer_rules.rule_options_persist(rep, repo, "C20-R9")
